@@ -51,6 +51,15 @@ def _case(draw):
         spec = draw(st.sampled_from([st_, {"t": "list", "form": "typed", "elem": st_},
                                      {"t": "dict", "entries": [{"key": "s", "opt": False, "spec": st_}],
                                       "relaxed": False}]))
+    if draw(st.integers(0, 11)) == 0:
+        # patterns / values mixing backslashes with both kinds of quotes, braces, newlines, non-ASCII
+        nasty = draw(st.sampled_from([r"""\w+=['"]\w*['"]""", r"""'" "\d""", r"""[\\'"]+""", "a\nb", "\\", "'", '"',
+                                      "{0}%s", "\u00e9\t", r"""(?P<q>['"])x"""]))
+        st_ = {"t": "str", "pattern": nasty} if draw(st.booleans()) else \
+            draw(st.sampled_from([{"t": "str", "value": nasty}, {"t": "str", "substr": nasty, "order": ["substr"]},
+                                  {"t": "str", "alphabet": nasty, "order": ["alphabet"]}]))
+        spec = draw(st.sampled_from([st_, {"t": "dict", "entries": [{"key": nasty, "opt": True, "spec": st_}],
+                                           "relaxed": False}]))
     if draw(st.integers(0, 15)) == 0:
         nf = draw(_nonfinite())
         spec = draw(st.sampled_from([nf, {"t": "list", "form": "exact", "elems": [nf, spec]},
@@ -83,6 +92,12 @@ def check(case, ctx):
         ctx.skip_undeclarable(None, e)
         return
     ns = {"schema": d42.schema, "optional": d42.optional, "UUID": uuid.UUID, "datetime": datetime}
+    # other public operations first: what the schema prints (and equals) must not depend on its past
+    try:
+        d42.validate(S, None)
+        d42.fake(S)
+    except Exception:  # noqa  (not this check's business)
+        pass
     try:
         t = repr(S)
         t2 = repr(S)
